@@ -142,3 +142,11 @@ PROPS.update({
         "trusted_base": ["net/http.Redirect, path.Clean, net/url (real, under the harness)"],
     },
 })
+
+PROPS.update({
+    "C05": _mach_prop(["selectors/verifiers are represented by their pre-images (injective SHA-512): 'decodes to exactly the issued bytes' is equality with selector++verifier",
+                       "base64 decoding is outside the model (the request carries the decoded bytes or 'undecodable'); alternative spellings of the same bytes are therefore the same token by construction; the harness decodes with the real encoding/base64",
+                       "the reject-frame theorem is proven for recovery; confirmation has the same shape and is covered by the differential stream (store diff on every rejected submission) and the monitor"]),
+    "C06": _mach_prop(["symbolic bcrypt (the stored value verifies exactly the password it was made from); the 72-byte truncation of real bcrypt is known finding K2, exercised by the harness",
+                       "token revocation is proven for UpdatePassword and for the remember hook on EventRecoverEnd under no storage fault"]),
+})
